@@ -21,11 +21,9 @@ def decode_rule(F, rep):
     # every string this function produces comes out of that decode: one MeleeString construction, inside the match on the decode result
     ctors = [n for n in tir.walk(root) if n.get("k") == "Call" and (declared(n) or "") == "game::shift_jis::MeleeString"]
     inside = 0
-    if len(calls) == 1:
-        par0 = safety.parents(root)
-        m0 = par0.get(id(calls[0]))
-        if m0 is not None and m0.get("k") == "Match":
-            inside = sum(1 for c in ctors if any(x is c for a in m0["arms"] for x in tir.walk(a["body"])))
+    forms = result_form(root, calls[0]) if len(calls) == 1 else None
+    if forms is not None:
+        inside = sum(1 for c in ctors if any(x is c for x in tir.walk(forms["some"])))
     rep.ob("decode.only-path", len(ctors) == 1 and inside == 1, TRY_FROM, "result", "MeleeString::try_from builds its result on %d path(s), %d of them from the decoder's output: every field must go through the NUL truncation and the strict decoder (a fast path bypasses both)" % (len(ctors), inside))
     for c in calls:
         rep.ob("decode.no-replacement", declared(c) == "encoding_rs::Encoding::decode_without_bom_handling_and_without_replacement", TRY_FROM, "decoder",
@@ -46,21 +44,58 @@ def decode_rule(F, rep):
                         pred_ok = True
         rep.ob("decode.nul", pred_ok, TRY_FROM, "position", "the truncation point must be the first byte equal to 0")
         # None -> Err, Some(cow) -> Ok(MeleeString(cow.to_string()))
-        par = safety.parents(root)
-        m = par.get(id(c))
-        ok = False
-        if m is not None and m.get("k") == "Match":
-            arms = {}
-            for a in m["arms"]:
-                p = a["pat"]
-                body = L.strip_try(a["body"])
-                kind = "Ok" if (declared(body) or "").endswith("::Ok") else ("Err" if (declared(body) or "").endswith("::Err") else "?")
-                if p.get("k") == "TupleStruct" and (p.get("path") or "").endswith("Some"):
-                    arms["Some"] = kind
-                else:
-                    arms["other"] = kind
-            ok = arms == {"Some": "Ok", "other": "Err"}
+        fm = result_form(root, c)
+        ok = fm is not None and fm["some_kind"] == "Ok" and fm["none_kind"] == "Err"
         rep.ob("decode.err", ok, TRY_FROM, "result", "a failed decode must map to Err and a successful one to Ok")
+
+
+def result_form(root, call):
+    """how the decoder's Option flows into the function's Result: {'some': expr evaluated with the decoded text,
+    'some_kind': Ok|?, 'none_kind': Err|?}; None when the flow is not one of the recognised total forms"""
+    par = safety.parents(root)
+    m = par.get(id(call))
+    while m is not None and m.get("k") in ("Block",) and not m.get("stmts"):
+        m = par.get(id(m))
+
+    def kind(body):
+        body = L.strip_try(body)
+        if body.get("k") == "Ret":
+            body = L.strip_try(body.get("e") or {})
+        if body.get("k") == "Block" and not body.get("tail") and len(body.get("stmts", [])) == 1:
+            return kind(body["stmts"][0].get("e") or {})
+        d = declared(body) or ""
+        return "Ok" if d.endswith("::Ok") else ("Err" if d.endswith("::Err") else "?")
+    if m is None:
+        return None
+    if m.get("k") == "Match" and strip(m["scrut"]) is call:
+        out = {"some": None, "some_kind": "?", "none_kind": "?"}
+        for a in m["arms"]:
+            p = a["pat"]
+            if p.get("k") == "TupleStruct" and (p.get("path") or "").endswith("Some"):
+                out["some"], out["some_kind"] = a["body"], kind(a["body"])
+            else:
+                out["none_kind"] = kind(a["body"])
+        return out if out["some"] is not None else None
+    if m.get("k") == "MethodCall" and m["method"] == "map" and strip(m["recv"]) is call and len(m["args"]) == 1 and strip(m["args"][0]).get("k") == "Closure":
+        # decode(..).map(|d| MeleeString(..)).ok_or(..) / .ok_or_else(..): Some -> Ok(closure value), None -> Err(argument)
+        up = par.get(id(m))
+        if up is not None and up.get("k") == "MethodCall" and up["method"] in ("ok_or", "ok_or_else") and strip(up["recv"]) is m and (up.get("ty") or "").startswith("std::result::Result"):
+            return {"some": strip(m["args"][0])["body"], "some_kind": "Ok", "none_kind": "Err"}
+        return None
+    if m.get("k") in ("MethodCall",) and m["method"] in ("ok_or", "ok_or_else") and strip(m["recv"]) is call:
+        # decode(..).ok_or(..)? followed by Ok(MeleeString(..))
+        rest = [c for c in tir.walk(root) if c.get("k") == "Call" and (declared(c) or "").endswith("::Ok")]
+        up = par.get(id(m))
+        if up is not None and up.get("k") == "Try" and len(rest) == 1:
+            return {"some": rest[0], "some_kind": "Ok", "none_kind": "Err"}
+        return None
+    if m.get("k") == "Let" and m.get("els") is not None and strip(m.get("init") or {}) is call:
+        p = m["pat"]
+        if p.get("k") == "TupleStruct" and (p.get("path") or "").endswith("Some"):
+            rest = [c for c in tir.walk(root) if c.get("k") == "Call" and (declared(c) or "").endswith("::Ok")]
+            if len(rest) == 1:
+                return {"some": rest[0], "some_kind": "Ok", "none_kind": kind(m["els"])}
+    return None
 
 
 def field_slicing(F, rep):
@@ -72,11 +107,11 @@ def field_slicing(F, rep):
     seen = {}
     for n in tir.walk(b["tir"]["value"]):
         if n.get("k") == "Call" and (declared(n) or "").endswith("TryFrom::try_from") and "MeleeString" in (n.get("ty") or ""):
-            a = strip(n["args"][0])
+            a = strip(n["args"][0])      # `&x[..]`, `x.as_slice()` and `&x` all denote the whole array
             if a.get("k") == "MethodCall" and a["method"] == "as_slice":
-                src = strip(a["recv"])
-                ty = src.get("ty") or ""
-                seen[L.local_name(src)] = ty
+                a = strip(a["recv"])
+            if a.get("k") == "Path" and a.get("res") == "local":
+                seen[L.local_name(a)] = a.get("ty") or ""
     for nm, ln in want.items():
         rep.ob("fields.whole", seen.get(nm) == "[u8; %d]" % ln, "io::slippi::de::player", nm, "name field `%s` must be passed whole ([u8; %d]) to MeleeString::try_from, got %s" % (nm, ln, seen.get(nm)),
                sample={"field": nm, "type": seen.get(nm)})
